@@ -14,11 +14,11 @@ EXTENDS Naturals, Sequences, TLC, FiniteSets
 \* lint still looks at their label and output variable ("OUT", "LBL" carry an upper-case letter)
 \* "pre": a pre-processor line (`!print pp`, printed while the text is parsed): not an instruction with names, and neither
 \* running nor linting stops at it
-NoCmdKinds == {"none", "out", "OUT", "lbl", "LBL", "pre"}
+NoCmdKinds == {"none", "out", "OUT", "OUTN", "lbl", "LBL", "LBLN", "pre"}      \* OUTN / LBLN: the upper-case letter is not ASCII
 \* exit256: a non-zero exit value whose low eight bits are zero - still a failed run
 \* xecho: `exec echo child` - a child process writing to the inherited standard output, between the script's own lines
 Kinds == {"echo", "xecho", "crash", "exit3", "exit256", "exit0", "badquote", "unknowncmd", "ECHO"} \cup NoCmdKinds
-FirstKinds == Kinds \ {"out", "OUT", "lbl", "LBL", "pre"}    \* the first statement takes its label / output from s.label / s.out
+FirstKinds == Kinds \ {"out", "OUT", "OUTN", "lbl", "LBL", "LBLN", "pre"}    \* the first statement takes its label / output from s.label / s.out
 Terminates(k) == k \in {"crash", "exit3", "exit256", "exit0", "unknowncmd", "ECHO"}
 RECURSIVE RunFrom(_,_)
 RunFrom(st, i) == IF i > Len(st) THEN "ok"
@@ -36,7 +36,7 @@ RECURSIVE OutLines(_,_)
 OutLines(s, i) == IF i > Len(s.st) \/ Terminates(s.st[i]) THEN <<>>
                   ELSE (IF s.st[i] = "echo" THEN <<"hello">> ELSE IF s.st[i] = "xecho" /\ ~(i = 1 /\ s.out # "none") THEN <<"child">> ELSE <<>>) \o OutLines(s, i+1)
 PrintedLines(s) == IF Outcome(s) \in {"parse-error", "missing-file"} THEN <<>> ELSE OutLines(s, 1)
-AllLower(s) == s.label # "Upper" /\ s.out # "Upper" /\ \A i \in 1..Len(s.st) : s.st[i] \notin {"ECHO", "OUT", "LBL"}
+AllLower(s) == s.label # "Upper" /\ s.out # "Upper" /\ \A i \in 1..Len(s.st) : s.st[i] \notin {"ECHO", "OUT", "LBL", "OUTN", "LBLN"}
 RunForms == {"file", "-e", "--eval"}
 LintForms == {"-l", "--lint"}
 InfoForms == {"--version", "--help", "-h"}
